@@ -206,6 +206,9 @@ func fieldComp(t types.Type, i int) string {
 // elemComp is the heap component holding scalars of type t stored in array
 // elements or in escaping local cells.
 func elemComp(t types.Type) string {
+	if b, ok := t.(*types.Basic); ok {
+		return "|E:" + types.Typ[b.Kind()].Name() + "|"
+	}
 	return "|E:" + typeName(types.Default(t)) + "|"
 }
 
